@@ -32,7 +32,7 @@ def by_design_local(site, exc):
     exception and caches the failure; `auto_import` treats a SyntaxError of the scan as the user's syntax error)."""
     if site == "import_exec":
         return True
-    if exc in ("SyntaxError", "natural:SyntaxError") and site == "scan":
+    if exc in ("SyntaxError", "natural:SyntaxError") and site in ("scan", "scan_sym", "scan_scope"):
         return True
     return False
 
@@ -184,6 +184,26 @@ class C13(Prop):
                 for exc in (("ValueError", "KeyError") if tier == "thorough" else ("ValueError",)):
                     out.append(dict(config="terminal", loglevel="ERROR", db="good", cells=cells,
                                     faults=[dict(site=site, exc=exc, nth=1, persist=True, msg=msg)]))
+        # round 2: faults INSIDE the analysis while the cell's binding targets are attributes / subscripts / names
+        ntc = len(gen_c13.TARGET_CELLS)
+        tsel = range(ntc) if tier == "thorough" else range(0, ntc, 1)
+        for t in tsel:
+            tc = [gen_c13.make_cell("target", 3, t, self._mods()), gen_c13.make_cell("plain", 1, 1, self._mods())]
+            out.append(dict(config="terminal", loglevel="ERROR", db="good", cells=tc, faults=[]))
+            for site, nths in (("sym", (1, 2, 3, 5) if tier == "thorough" else (1, 2)), ("scope", (1,)), ("db_lookup", (1,)),
+                               ("scan", (1,))):
+                for nth in nths:
+                    out.append(dict(config="terminal", loglevel="ERROR", db="good", cells=tc,
+                                    faults=[dict(site=site, exc="ValueError", nth=nth, persist=False)]))
+        # round 2: the module enumeration of the first global-name completion is hit (Exception / Ctrl-C), then a
+        # module that lives in the working directory is imported
+        seq = [gen_c13.make_cell("complete_global", 1, 1, self._mods()), gen_c13.make_cell("import_local", 1, 1, self._mods()),
+               gen_c13.make_cell("complete_global", 2, 2, self._mods()), gen_c13.make_cell("known", 2, 2, self._mods())]
+        for exc in ("Exception", "KeyboardInterrupt", "OSError"):
+            for persist in (False, True):
+                out.append(dict(config="terminal", loglevel="ERROR", db="good", cells=seq,
+                                faults=[dict(site="modlist", exc=exc, nth=1, persist=persist)]))
+        out.append(dict(config="terminal", loglevel="ERROR", db="good", cells=seq, faults=[]))
         # %run of scripts under unusual paths, healthy importer and one fault
         n = len(gen_c14.ODD_PATHS)
         for lo in range(0, n, 3):
@@ -283,6 +303,20 @@ class C13(Prop):
                 F("pyflyby's logger printed a 'Logging error' traceback", i,
                   msgs=sorted({f.get("msg", "marker") for f in case.get("faults", [])}))
             fired = [t for t in a["trace"] if t[2]]
+            interrupted = any(t[2] == "KeyboardInterrupt" for t in fired)
+            # ---- process-global state (sys.path, cwd, zzq_* modules, builtins, hooks, warning filters ...)
+            ga, gb = a.get("gstate"), b.get("gstate")
+            if ga is not None and gb is not None and ga != gb:
+                keys = sorted(k for k in ga if ga[k] != gb.get(k))
+                F("process-global state differs from the pyflyby-free run", i, keys=keys,
+                  got={k: _clip(ga[k]) for k in keys[:3]}, want={k: _clip(gb.get(k)) for k in keys[:3]},
+                  trace=[t for t in fired][:3])
+            if interrupted:
+                # KeyboardInterrupt is a BaseException: _safe_call lets it through by design; only the state checks apply
+                fired = [t for t in fired if t[2] != "KeyboardInterrupt"]
+                a = dict(a, escaped=None)
+                if a["kind"] == "complete":
+                    a = dict(a, matches=b["matches"], stdout=b["stdout"], stderr=b["stderr"])
             internal = [t for t in fired if t[1] is not None and not by_design_local(t[0], t[2])]
             reported = any("Disabling pyflyby auto importer" in l for l in a["pf_log"])
             relevant = [t for t in fired if not by_design_local(t[0], t[2])]
@@ -363,7 +397,8 @@ class C13(Prop):
             if not out or out[-1][0] != hook:
                 out.append([hook, "ok"])
             if fired and out[-1][1] == "ok":
-                out[-1][1] = "scanSyntax" if (site == "scan" and fired.endswith("SyntaxError")) else SITE_KIND[site]
+                out[-1][1] = "scanSyntax" if (site in ("scan", "scan_sym", "scan_scope") and fired.endswith("SyntaxError")) \
+                    else SITE_KIND[site]
         rd = redisplay_failure(a)
         if rd == "pt_cli" and out and out[-1][0] in ("globalMatches", "attrMatches"):
             if out[-1][1] == "ok":
@@ -380,6 +415,8 @@ class C13(Prop):
             fail = None
         if self._variant is None:
             return []
+        if any(f.get("exc") == "KeyboardInterrupt" for f in case.get("faults", [])):
+            return []          # BaseException is outside the model (and the property)
         mops = [["enable", False, fail]]
         self._marks = getattr(self, "_marks", {})
         marks = []
@@ -516,10 +553,12 @@ class C13(Prop):
         w = failure.get("what", "")
         if w == "after an internal error the importer did not withdraw":
             tr = failure.get("internal") or []
-            return bool(tr) and all(t[0] in ("parse", "scan") and t[1] in ("globalMatches", "attrMatches") for t in tr)
+            return bool(tr) and all(t[0] in ("parse", "scan", "sym", "scan_sym", "scan_scope", "db_lookup")
+                                    and t[1] in ("globalMatches", "attrMatches") for t in tr)
         if w == "after an internal error completions differ from the pyflyby-free run":
             tr = failure.get("trace") or []
-            return bool(tr) and all(t[0] in ("parse", "scan", "import_exec") and t[1] in ("globalMatches", "attrMatches") for t in tr) \
+            return bool(tr) and all(t[0] in ("parse", "scan", "import_exec", "sym", "scan_sym", "scan_scope", "db_lookup")
+                                    and t[1] in ("globalMatches", "attrMatches") for t in tr) \
                 and failure.get("got") == []
         return False
 
